@@ -76,8 +76,9 @@ CLAIMED["C01"] = dict(
     text="Differential bounded model checking of the real encoder against a 25-line reference RFC 6733 encoder fed the "
          "same logical content: header fields (all values), generic AVP code/flags/vendor/data, messages of generic AVPs "
          "over every length residue, every Grouped and custom-logic dictionary class plus one class per (type, vendor-ness) "
-         "with symbolic leaf values (all 206 classes x residues in thorough), nested Grouped AVPs to depth 3/4, flag-setter "
-         "sequences, Request/Answer constructors. Each query is one bytes equality over symbolic content; CrossHair closes "
+         "with symbolic leaf values (all 206 classes x residues in thorough), nested Grouped AVPs to depth 3/4, same-code siblings "
+         "with free flags/data at three levels (so byte-equal siblings arise as solver cases), flag-setter sequences, "
+         "Request/Answer constructors. Each query is one bytes equality over symbolic content; CrossHair closes "
          "every path, counterexamples are replayed natively.",
     note="Trusted: CrossHair, z3, the reference encoder, the frozen reference dictionary (ref/avp_dictionary.json). One "
          "dimension is symbolic per query; shapes and lengths are grid parameters (data <= 9 bytes per leaf, <= 3 top-level "
@@ -125,7 +126,7 @@ CLAIMED["C19"] = dict(
     text="The real _convert_config_to_connection_obj / Diameter(config=) / _convert_file_to_config are executed on complete "
          "configurations in which one key (group) is symbolic per query - MODE and TRANSPORT_TYPE as arbitrary short strings, "
          "IPv4 addresses as digit templates with every digit symbolic and as a valid stem with an arbitrary inserted character, "
-         "the timeout as any int or a non-int kind, names/ports/application byte values verbatim - under several key insertion "
+         "the timeout as any int or a non-int kind (each kind's falsy value too, through the converter and through Diameter(config=)), names/ports/application byte values verbatim - under several key insertion "
          "orders; the verdict 'Connection equal to the input, or InvalidConfigKey/InvalidConfigValue' is compared with an "
          "independent validator. YAML half: yaml.load/open stubbed to a symbolic spec list (mode/transport case variants, "
          "per-entry TCP default, constants by name).",
@@ -150,7 +151,8 @@ CLAIMED["C02"] = dict(
     text="Wire images are produced by the reference encoder from a symbolic logical description (all header bytes; per AVP the "
          "M/P/reserved bits and data; leaf values of dictionary classes; 1-3 concatenated messages; Grouped nesting) and fed to "
          "the real DiameterMessage.load; CrossHair shows for all contents that the message count/order, every header field, "
-         "each AVP's code/flags/Vendor-ID/data/class and the re-dump equal the description. The re-flagging of known AVPs that "
+         "each AVP's code/flags/Vendor-ID/data/class and the re-dump equal the description (including byte-identical same-code "
+         "siblings at message level, inside a Grouped AVP and inside a nested one). The re-flagging of known AVPs that "
          "carry non-default flag bits is an open known finding: its witness is replayed and its region excluded.",
     note="Trusted: CrossHair, z3, reference encoder, frozen dictionary. Structure (AVP codes, lengths, counts) is a grid "
          "parameter; unknown (vendor, code) pairs are concrete constants per position. Outside: non-zero padding, > 3 messages.")
@@ -195,8 +197,10 @@ CLAIMED["C05"] = dict(
          "lock stays held.",
     note="Trusted: CrossHair, z3, stand-in primitives and scheduler (vf/cosched.py, vf/conode.py). Bounds: <= 2 submitters, <= 3 "
          "messages, <= 1-2 (quick) / 4 (thorough) preemptions, K <= 64 decisions, partial-write patterns 7,1 / 1,30 / 5 / 3. "
-         "Outside: bytecode-level preemption, real sockets, SCTP, messages larger than the send buffer. Three genuine defects "
-         "found and fixed (duplicate on partial write, loss on read-event mask reset, lost wake-up deadlock).")
+         "Outside: bytecode-level preemption, real sockets, SCTP. Batches exceeding the send buffer and a message larger than the "
+         "buffer are covered with the buffer constant patched down (behaviour is parametric in it). Five genuine defects found and "
+         "fixed (duplicate on partial write, loss on read-event mask reset, lost wake-up deadlock, re-queue at the tail reorders, "
+         "oversize message never sent).")
 
 CLAIMED["C08"] = dict(
     level="model_checking", technique=E3 + " (delay-bounded and preemption-bounded schedule exploration)", design="6/C08",
@@ -208,7 +212,10 @@ CLAIMED["C08"] = dict(
          "scheduler's delays are boolean solver variables; CrossHair enumerates every schedule within the delay bound. Oracle "
          "once the system has settled: state Closed, sockets closed and unregistered, transport released, transport / worker / "
          "state-machine coroutines returned, the blocked consumer returned, association lock free, Diameter.start() accepted "
-         "and a second association on the same object answers a DWR.",
+         "and a second association on the same object answers a DWR. The life/* queries drive the node from the REAL "
+         "Diameter.start() (PeerStateMachine.start, DiameterAssociation.start, TcpClient/TcpServer.start and run, every Thread "
+         "they start) on stand-in socket.socket / DefaultSelector / Thread with connect_ex() returning EINPROGRESS or "
+         "ECONNREFUSED, through the connection's end, and then call the real start() again: CER/CEA and DWR/DWA must complete.",
     note="Trusted: CrossHair, z3, stand-in primitives and scheduler. Bounds: <= 4 (quick) / 7 delays at synchronisation-operation "
          "granularity, <= 2 / 3 delays with statement-level preemption in the teardown methods. Thread termination is the return "
          "of the coroutinised loop, not an OS thread exit. Three defects fixed; two open known findings (server: peer gone "
@@ -222,7 +229,10 @@ CLAIMED["C06"] = dict(
          "wrong flags, DWR/DWA/DPR/DPA variants, addressed / misaddressed application requests; symbolic identifiers) are solver "
          "variables; the reported state, the messages handed to the transport, delivery to the application, release of the "
          "transport on Closed and the absence of exceptions are compared with a reference transition function transcribed from "
-         "the property text. Bounded walks from Closed confirm reachability and 'Open only after a valid exchange'.",
+         "the property text; any exception (library or not) escaping the tick is a violation. The same query is repeated with the "
+         "association's pending-request registries in four shapes relative to the inbound identifiers (outstanding, already "
+         "answered = retransmitted answer, Hop-by-Hop only, End-to-End only). Bounded walks from Closed confirm reachability "
+         "and 'Open only after a valid exchange'.",
     note="Trusted: CrossHair, z3, stand-in transport, the reference transition function. Outside: election states beyond 'absorbing "
          "and silent', SCTP, real timers, outbound messages submitted before Open.")
 CLAIMED["C14"] = dict(
@@ -231,7 +241,9 @@ CLAIMED["C14"] = dict(
          "re-compiled from source into coroutines (blocking operations and registry accesses become preemption points; in the "
          "'lines' queries every statement does) and run under a scheduler whose every decision is a boolean solver variable; "
          "CrossHair exhausts all schedules within the preemption bound: each caller must get the answer object whose Hop-by-Hop "
-         "equals its request's, nobody is left blocked (Deadlock is the violation witness), the registry ends empty.",
+         "equals its request's, nobody is left blocked (Deadlock is the violation witness), the registry ends empty. Whatever "
+         "threading primitives PendingAnswer and its class hold (Event, Lock, Condition, under any attribute name) are replaced by "
+         "scheduler stand-ins after the real constructor ran.",
     note="Trusted: CrossHair path enumeration, the coroutiniser, stand-in Lock/Event/Queue/Barrier, 'timeouts fire only at "
          "quiescence'. The solver prunes nothing in the schedule dimension (stated in DESIGN 2.4). Bounds: k<=2 callers (quick), "
          "preemption budgets as listed in the evidence; outside: same Hop-by-Hop twice (C15), bytecode-level preemption.")
@@ -243,9 +255,10 @@ CLAIMED["C07"] = dict(
          "buffer, or across a restart of the same node object - with every Hop-by-Hop and End-to-End identifier a 32-bit solver "
          "variable; the real state classes are ticked, and the bytes handed to the transport are decoded with the reference "
          "decoder: the i-th answer has the i-th request's command code, R clear, its identifiers, the local origin and a "
-         "Result-Code, and at most one inbound message is consumed per tick.",
+         "Result-Code, and at most one inbound message is consumed per tick. In Closing (crossing requests after a local stop) "
+         "requests may go unanswered, but every base answer emitted must carry the identifiers of one received request.",
     note="Trusted: CrossHair, z3, stand-in transport (transport thread body runs between ticks / while the state machine waits), "
-         "reference decoder. Bounds: sequences <= 3; SEND_BUFFER_MAXIMUM_SIZE patched to 100 in the backlog queries.")
+         "reference decoder. Bounds: sequences <= 3; SEND_BUFFER_MAXIMUM_SIZE patched to one application message + 8 bytes in the backlog queries.")
 
 PENDING_REASON = "check not built yet in this session (planned in DESIGN.md section 6); no claim is made"
 NOT_APPLICABLE = {}
